@@ -19,8 +19,8 @@ def srcPlaces (l : List (List Src)) : List Place := l.map (·.map Src.toPiece)
 
 /-- names of the documented deviations of the model (= the code) from the psABI that apply to a
 signature; `gen` selects generated code, otherwise the interpreter shim.  After the repairs of the
-long-double alignment (6f58eeff) and of va_block_arg (a84677ea) only the `va_start` expansion of
-generated code has documented deviations; anything else is `…-unexplained`. -/
+long-double alignment (6f58eeff), of va_block_arg (a84677ea) and of va_start (de2f5d8a) no documented
+deviation is left: every tag is `…-unexplained`, i.e. a failing call is an unknown violation. -/
 def diag (gen : Bool) (named tail : List PTy) (vararg : Bool) : List String := Id.run do
   let mut tags : List String := []
   let specNamed := sysvIncoming named
@@ -30,12 +30,9 @@ def diag (gen : Bool) (named tail : List PTy) (vararg : Bool) : List String := I
     if (calleePlace named).map (·.map MPiece.toPiece) != specNamed then
       tags := tags ++ ["callee-place-unexplained"]
     if vararg then
-      let v := (vaStartGen named).toVaList
+      let v := vaStartGen named
       if v.norm != sysvVaStart named then
-        let t := if (named.filter isBlk).length > 0 then "va-start-block-param"
-                 else if (named.filter isIntClass).length ≥ 6 then "va-start-six-named-ints"
-                 else if (named.filter isFp).length > 8 then "va-start-nine-named-fp"
-                 else "va-start-unexplained"
+        let t := "va-start-unexplained"
         tags := tags ++ [t]
       -- the fetch sequence is judged from the psABI state, the va_start deviation is tagged above
       if srcPlaces (vaArgWalk (sysvVaStart named) tail).1 != specTail then
@@ -76,7 +73,7 @@ def step (ws : List String) : String :=
     | some ps => "shim " ++ placesToString (shimPlace ps)
     | none => "shim ?"
   | "vastart" :: rest => match parseSig rest with
-    | some ps => s!"vastart spec={vaStr (sysvVaStart ps)} gen={vaStr (vaStartGen ps).toVaList} shim={vaStr (vaStartShim ps)}"
+    | some ps => s!"vastart spec={vaStr (sysvVaStart ps)} gen={vaStr (vaStartGen ps)} shim={vaStr (vaStartShim ps)}"
     | none => "vastart ?"
   | "walk" :: rest =>
     let (a, b) := splitBar rest
@@ -84,7 +81,7 @@ def step (ws : List String) : String :=
     | some named, some tail =>
       let sAfter := (sysvWalk .init named).2
       let spec := (sysvWalk sAfter tail).1
-      let g := srcPlaces (vaArgWalk (vaStartGen named).toVaList tail).1
+      let g := srcPlaces (vaArgWalk (vaStartGen named) tail).1
       let s := srcPlaces (vaArgWalk (vaStartShim named) tail).1
       s!"walk spec={placesToString spec} gen={placesToString g} shim={placesToString s}"
     | _, _ => "walk ?"
